@@ -21,6 +21,10 @@ func TestReplay(t *testing.T) { prop.Replay(t, nil) }
 // single-line tokens for width-declaring items (exactly one non-empty text line)
 var oneLine = []string{"a", "ab", "abcd", "x y", "\x1b[1m", "\x1b[0m", "漢", "é", "​", "Hello", "0"}
 
+// twinTexts: texts that both width-declaring items and plain cells draw from (whatever is remembered per text must
+// not carry over from the one to the other).
+var twinTexts = []string{"ok", "total", "\u6f22\u5b57", "n/a", "e\u0301t\u00e9"}
+
 // overrideItem draws an item that declares its width and/or height.
 func overrideItem() *rapid.Generator[gen.Item] {
 	return rapid.Custom(func(t *rapid.T) gen.Item {
@@ -34,6 +38,9 @@ func overrideItem() *rapid.Generator[gen.Item] {
 			text = gen.StringOf(oneLine, 1, 3).Draw(t, "line")
 			if text == "" {
 				text = "w"
+			}
+			if rapid.IntRange(0, 3).Draw(t, "twin") == 0 {
+				text = rapid.SampledFrom(twinTexts).Draw(t, "twin-text") // the same text may sit in a plain cell of the same table
 			}
 			if rapid.IntRange(0, 3).Draw(t, "trailing-lf") == 0 {
 				text += "\n" // still exactly one text line
@@ -72,6 +79,9 @@ func caseGen() *rapid.Generator[Case] {
 		if rapid.IntRange(0, 3).Draw(t, "override") == 0 {
 			return ov.Draw(t, "ov")
 		}
+		if rapid.IntRange(0, 5).Draw(t, "twin") == 0 {
+			return gen.S(rapid.SampledFrom(twinTexts).Draw(t, "twin-text"))
+		}
 		if gen.Rarely(t, "nested", 8) {
 			in := plain.Draw(t, "inner")
 			return gen.Item{K: rapid.SampledFrom([]string{"cell", "pcell"}).Draw(t, "nest"), In: &in}
@@ -79,7 +89,7 @@ func caseGen() *rapid.Generator[Case] {
 		return plain.Draw(t, "plain")
 	})
 	sg := gen.ScriptGen(gen.ScriptOpts{
-		AllowProps: true, AllowRowErr: true, AllowMutate: true,
+		AllowProps: true, AllowRowErr: true, HeavyTail: 12, AllowMutate: true,
 		Item:     item,
 		MinOps:   1,
 		MaxOps:   max,
@@ -98,6 +108,7 @@ func caseGen() *rapid.Generator[Case] {
 			c.Also = rapid.SliceOfN(rapid.SampledFrom([]string{"markdown", "markdown!", "csv!", "json", "html!", "texttable", "texttable!", "none!"}), 1, 3).Draw(t, "also")
 		}
 		c.Renders = rapid.IntRange(1, 3).Draw(t, "renders")
+		c.AppCB = rapid.SampledFrom([]int{0, 0, 0, 1, 1, 2}).Draw(t, "appcb")
 		if rapid.IntRange(0, 3).Draw(t, "pre?") == 0 {
 			c.Pre = 1 + rapid.IntRange(0, len(c.Script.Ops)).Draw(t, "pre")
 		}
